@@ -388,7 +388,7 @@ Section MainSize.
                      (maybe_clamp_ao (avail_map_definite_value (s_cross row av') (fun val => opt_unwrap_or (s_cross row (k_inner kc')) val))
                                      (maybe_add_of (s_cross row (ci_min (w_ci w'))) (cross_axis_sum row (k_margin kc')))
                                      (maybe_add_of (s_cross row (ci_max (w_ci w'))) (cross_axis_sum row (k_margin kc'))))).
-    { apply (rel_maybe_clamp_ao k Hk); hm k Hk. }
+    { first [apply (rel_maybe_clamp_ao k Hk)|apply (rel_maybe_clamp_ao k)]; hm k Hk. }
     set (cas := maybe_clamp_ao _ _ _) in *. set (cas' := maybe_clamp_ao (avail_map_definite_value (s_cross row av') _) _ _) in *. clearbody cas cas'.
     constructor; [|constructor]. apply fin_rel_mk; [| exact Hki | apply rel_s_with_cross; assumption].
     assert (Hkd0 : sz_rel O (s_with_main row (ci_size (w_ci w)) None) (s_with_main row (ci_size (w_ci w')) None))
